@@ -193,6 +193,15 @@ class DataPath:
 
         return obj
 
+    def to_spec(self):
+        """Get a spec that can be passed to `DataPath.from_spec`."""
+        key = "path"
+        if self.MULTI_TYPE.value:
+            key += f".{self.MULTI_TYPE.name.lower()}"
+        if self.DATUM_TYPE.value:
+            key += f".{self.DATUM_TYPE.name.lower()}"
+        return {key: self.to_part_specs()}
+
     @classmethod
     def from_json_like(cls, json_like, *args, **kwargs):
         return cls.from_spec(json_like)
